@@ -153,6 +153,29 @@ func init() {
 			"request path printable ASCII without '?', '#', '%', single leading '/'",
 		},
 	}
+	var c19quick, c19all []int
+	for ci := 0; ci < 8; ci++ {
+		c19quick = append(c19quick, ci*4+0, ci*4+1)
+		for k := 0; k < 4; k++ {
+			c19all = append(c19all, ci*4+k)
+		}
+	}
+	c19quick = append(c19quick, 0*4+2, 0*4+3, 4*4+3, 2*4+3)
+	props["C19"] = PropSpec{
+		ID: "C19",
+		Runs: []HarnessRun{
+			{Rel: "middleware/cors", Dir: "cors", Entry: "VH_C19_cors", Cases: tierCases(c19quick, c19all), Reach: []string{"acao-set", "acao-absent", "preflight"}, MaxPaths: 100000, ExtraPkgs: []string{"github.com/gofiber/fiber/v3"}},
+		},
+		Bounds: map[string]string{
+			"quick":    "8 configurations (exact entries, wildcard-subdomain entries with/without port, '*', AllowOriginsFunc, credentials, private network, max age, headers); Origin = scheme (http|https) '://' host with host a symbolic string of every length 1..maxHost (<= 9) over [a-z0-9.:-] (first byte may be upper case), plus 'null' and absent; simple GET and preflight for every config, bare OPTIONS / null origin for four",
+			"thorough": "8 configurations x {simple, preflight, OPTIONS without request-method, null/absent origin}",
+		},
+		Assumptions: []string{
+			"serialized origins only (scheme://host[:port]); upper case only in the first host byte (strings.ToLower forks per byte)",
+			"configurations that panic at construction are not part of the catalogue",
+			"a wildcard entry is required to match a non-empty left label (the empty-label origin scheme://.domain is not demanded either way)",
+		},
+	}
 	props["SMOKEFAIL"] = PropSpec{
 		ID: "SMOKEFAIL",
 		Runs: []HarnessRun{
